@@ -28,7 +28,7 @@ from pyvc.shims import shimmed
 PROPERTY = "C07"
 
 META = {
-    "level": "proof",
+    "level": "other",
     "trusted_base": [
         "z3 sequence/array theories; pyvc path exploration",
         "harness/rtlil_parse.py (strict RTLIL reader) and spec/rtlil_wf.py (well-formedness predicate, Yosys cell port table)",
